@@ -39,6 +39,7 @@ type Engine struct {
 	MaxPaths  int
 	InlineMax int
 	ModelTerms func(o *Oblig) []*Term
+	Replayer   func(o *Oblig) (map[string]interface{}, bool, string)
 	SpecSource map[string]string
 	SpecFiles  []string
 
@@ -62,6 +63,9 @@ type rootCtx struct {
 	err      error
 	modRanges []modRange
 	variant  *Term
+	used     map[string]bool
+	inputs   []InputTerm
+	outputs  []InputTerm
 	frozenAssumed map[*ssa.Global]bool
 }
 
@@ -130,6 +134,15 @@ type Oblig struct {
 	SMTFile string
 	Output  string
 	modelTerms []*Term
+	Replayed   bool
+	Inputs     []InputTerm
+	Outputs    []InputTerm
+}
+
+// InputTerm names a term of the entry state whose model value is an input of the root function.
+type InputTerm struct {
+	Name string // e.g. "b.len", "b[3]", "v"
+	T    *Term
 }
 
 func NewEngine(p *Program) *Engine {
@@ -222,6 +235,8 @@ func (e *Engine) oblige(st *State, fr *frame, kind, detail string, goal *Term, p
 	if rc.spec != nil {
 		o.Props = rc.spec.Props
 	}
+	o.Inputs = rc.inputs
+	o.Outputs = rc.outputs
 	rc.obligs = append(rc.obligs, o)
 	// the continuing path runs under the assumption that the check passed
 	st.assume(goal)
